@@ -8,7 +8,7 @@ CHECK = {'level': 'model_checking',
          'snapshot; final-use scenarios: n-1 lease-generating uses followed by every request kind as the final one '
          '(including a refused sys/seal, requests addressing a mount of a child namespace with the parent '
          "namespace's token, and a use-limited root token without ttl); two requests on a 1-use token at lock "
-         'granularity; non-trivial = distinct (scenario, observable outcome)',
+         'granularity; E: a use-limited token bound to an identity entity, every history (length <= n+3) over {present the token, disable the entity, enable it}: refused presentations count, at most n reach the backend, the token is gone after the n-th; final uses also on the endpoints that mint tokens without a parent (create-orphan, no_parent); non-trivial = distinct (scenario, observable outcome)',
  'assumptions': ['scheduling points: every operation reaching the physical backend + contended locks (vsync shim); '
                  'lease expiry is turned into an explicit drain step (recording expireFunc)',
                  'counted as authorised: backend operation-handler invocations + successful core-handled requests'],
